@@ -622,9 +622,10 @@ pub fn run_scenario(
             "same" => {},
             "rand" => cs[cj] = alt_point("commit", sidx ^ mi as u64),
             "swap" => cs.swap(cj, cj + 1),
+            "cache" => {}, // below: only the cached ENCODING of commitment cj is replaced, the point stays
             x => panic!("unknown commit change {}", x),
         }
-        let st = match RangeStatement::init(params, cs, proms_of(&v["proms"]), seed_scalar(v["seed"].as_u64().unwrap(), ctx.run_seed)) {
+        let mut st = match RangeStatement::init(params, cs, proms_of(&v["proms"]), seed_scalar(v["seed"].as_u64().unwrap(), ctx.run_seed)) {
             Ok(s) => s,
             Err(e) => {
                 out.verify = "harness".into();
@@ -632,6 +633,9 @@ pub fn run_scenario(
                 return (out, built);
             },
         };
+        if v["commit"].as_str() == Some("cache") {
+            st.commitments_compressed[cj] = alt_point("commit", sidx ^ mi as u64).compress();
+        }
         stmts.push(st);
         labels.push(v["label"].as_u64().unwrap());
         blind_ref.push(b.blinds[0].clone());
